@@ -60,7 +60,7 @@ def prepare_prior(state, out, rng, previous):
     os.chmod(out, 0o755)
 
 
-CLASS_CYCLE = ["dyn", "graph", "str", "dyn", "script", "graph"]
+CLASS_CYCLE = ["dyn", "graph", "str", "dyn", "script", "graph", "big"]
 
 
 def make_class(rng, workdir, tier, index=0):
@@ -84,6 +84,37 @@ def make_class(rng, workdir, tier, index=0):
                 s["unterminated"] = False
         objs = gen_str.emit(w, workdir)
         return ctype, ["-static"] + objs, {"params": w.params}
+    if ctype == "big":
+        # Sections above wild's parallel-copy threshold (1,000,000 bytes) with sizes that are not a
+        # multiple of any small thread count; non-zero contents.
+        objs = []
+        nsec = rng.randint(1, 3)
+        info = {"sizes": []}
+        for i in range(nsec):
+            size = rng.choice([1_000_003, 1_000_037, 1_234_577, 2_000_003])
+            info["sizes"].append(size)
+            blob = os.path.join(workdir, f"blob{i}.bin")
+            with open(blob, "wb") as f:
+                f.write(bytes((b % 251) + 1 for b in rng.randbytes(size)))
+            src = os.path.join(workdir, f"big{i}.s")
+            with open(src, "w") as f:
+                f.write(f'\t.section .rodata.big{i},"a",@progbits\n\t.globl big{i}\nbig{i}:\n'
+                        f'\t.incbin "{blob}"\n\t.section .note.GNU-stack,"",@progbits\n')
+            from .common import assemble
+            obj = os.path.join(workdir, f"big{i}.o")
+            assemble(src, obj)
+            os.unlink(blob)
+            objs.append(obj)
+        src = os.path.join(workdir, "start.s")
+        with open(src, "w") as f:
+            f.write('\t.section .text._start,"ax",@progbits\n\t.globl _start\n_start:\n' +
+                    "".join(f"\tleaq big{i}(%rip), %rax\n" for i in range(nsec)) +
+                    "\tmovl $231, %eax\n\txorl %edi, %edi\n\tsyscall\n"
+                    '\t.section .note.GNU-stack,"",@progbits\n')
+        from .common import assemble
+        sobj = os.path.join(workdir, "start.o")
+        assemble(src, sobj)
+        return ctype, ["-static", sobj] + objs, info
     if ctype == "dyn":
         d = gen_dyn.generate(rng, rng.choice(["small", "medium"]),
                              hash_style=["sysv", "gnu", "both"][(index // 3) % 3],
